@@ -39,8 +39,7 @@ type Run struct {
 	Panics    []string
 	Pools     [4]*simPool
 	PMSrc     [][]byte
-	MaskKeys  [][4]byte
-	MaskOdd   int
+	MaskStream []byte // every byte the key source handed out during the run
 	Findings  []Finding
 	Obligations int // oracle obligations discharged with work in flight
 	Digest    uint64
@@ -170,8 +169,7 @@ func execIn(t *testing.T, scn *Scenario, tape []int32, run *Run) {
 	run.Stats = s.stats
 	run.Tape = s.ch.tape
 	run.Harness = append(run.Harness, s.harness...)
-	run.MaskKeys = theMask.keys()
-	run.MaskOdd = theMask.odd
+	run.MaskStream = theMask.stream()
 	run.Digest = digestRun(run, s)
 }
 
